@@ -3,6 +3,7 @@ package main
 import (
 	"bytes"
 	"context"
+	crand "crypto/rand"
 	"encoding/binary"
 	"errors"
 	"fmt"
@@ -119,6 +120,10 @@ type dgram struct {
 	sock int // index of the receiving socket in its group
 	from netip.AddrPort
 	data []byte
+	// filled by classifyTarget: what the datagram carries after removing the upstream protocol (if any)
+	inner   tAddr
+	payload []byte
+	perr    error
 }
 
 type sockGroup struct {
@@ -144,7 +149,7 @@ func (g *sockGroup) add(c *net.UDPConn) int {
 			}
 			d := make([]byte, n)
 			copy(d, buf[:n])
-			g.ch <- dgram{idx, netip.AddrPortFrom(from.Addr().Unmap(), from.Port()), d}
+			g.ch <- dgram{sock: idx, from: netip.AddrPortFrom(from.Addr().Unmap(), from.Port()), data: d}
 		}
 	})
 	return idx
@@ -229,21 +234,197 @@ func parseSocksAddr(b []byte) (tAddr, int, error) {
 	return tAddr{}, 0, fmt.Errorf("atyp %d", b[0])
 }
 
-func payloadBytes(id int, r *common.Rng) []byte {
+// Every payload of a relay run is: 8-byte identity, the run's 8-byte random nonce, filler. Loopback is shared with
+// other processes (and with earlier cases of this process, whose ports get reused): a datagram that cannot be
+// attributed to THIS run — neither by its source (a socket of this run's relay) nor by the nonce — is counted as
+// foreign traffic and ignored; one that is attributable and unexpected stays an oracle failure.
+func (x *relayRun) payloadBytes(id int, fill int) []byte {
 	b := binary.BigEndian.AppendUint64(nil, uint64(id))
-	return append(b, r.Bytes(8+r.Intn(24))...)
+	b = append(b, x.nonce[:]...)
+	return append(b, x.r.Bytes(fill)...)
+}
+
+var (
+	pastNonceMu sync.Mutex
+	pastNonces  = map[[8]byte]bool{}
+)
+
+// whose classifies a payload by its nonce: "mine", "late" (an earlier case of this process) or "foreign".
+func (x *relayRun) whose(b []byte) string {
+	if len(b) < 16 {
+		return "foreign"
+	}
+	n := [8]byte(b[8:16])
+	if n == x.nonce {
+		return "mine"
+	}
+	pastNonceMu.Lock()
+	defer pastNonceMu.Unlock()
+	if pastNonces[n] {
+		return "late"
+	}
+	return "foreign"
+}
+
+func (x *relayRun) skip(kind string) {
+	if kind == "late" {
+		x.lateN++
+	} else {
+		x.foreignN++
+	}
+}
+
+// classifyTarget: does a datagram that arrived at a target / upstream socket belong to this run? Attribution by
+// source (a NAT socket of this run's relay already seen) or by nonce; fills d.inner / d.payload / d.perr.
+func (x *relayRun) classifyTarget(d *dgram) bool {
+	_, known := x.portSid[d.from.Port()]
+	if x.viaUpstream() && d.sock == len(x.taddrs) {
+		a, payload, err := x.parseUpstream(d.data, d.from)
+		if err != nil {
+			if known {
+				d.perr = err
+				return true
+			}
+			x.skip("foreign")
+			return false
+		}
+		d.inner, d.payload = a, payload
+	} else {
+		d.payload = d.data
+	}
+	if known {
+		return true
+	}
+	if w := x.whose(d.payload); w != "mine" {
+		x.skip(w)
+		return false
+	}
+	return true
+}
+
+// classifyClient: a datagram at a client socket belongs to this run iff it comes from this run's relay listener.
+func (x *relayRun) classifyClient(d *dgram) bool {
+	a := d.from.Addr()
+	if d.from.Port() == x.relay.addr.Port() && a.IsLoopback() {
+		return true
+	}
+	x.skip("foreign")
+	return false
+}
+
+// relayedForeign: a reply that this run's relay delivered correctly but that did not originate in this run: a
+// full-cone NAT session forwards whatever reaches its NAT socket, also datagrams of other processes on the shared
+// loopback. It is recognised by BOTH a source that is none of this run's targets and a payload without the nonce.
+func (x *relayRun) relayedForeign(src string, payload []byte) bool {
+	if x.whose(payload) == "mine" {
+		return false
+	}
+	if ap, err := netip.ParseAddrPort(src); err == nil && ap.Port() == x.tport {
+		for _, a := range x.taddrs {
+			if a == ap.Addr().Unmap() {
+				return false // claims to come from one of this run's targets: must be one of their payloads
+			}
+		}
+	}
+	x.skip(x.whose(payload))
+	return true
+}
+
+// ownerOf: the client whose socket (current or earlier) received the datagram.
+func (x *relayRun) ownerOf(d dgram) *hClient {
+	if ci, ok := x.sockOwner[d.sock]; ok {
+		return x.clients[ci]
+	}
+	return nil
+}
+
+// cgRecvDecoded: the next reply of THIS run at a client socket, decoded with the session of the client chosen by
+// hcFor. A datagram from this run's relay that does not decode is returned with derr (a failure of the relay).
+func (x *relayRun) cgRecvDecoded(hcFor func(dgram) *hClient, wait time.Duration) (d dgram, src string, payload []byte, derr error, ok bool) {
+	deadline := time.Now().Add(wait)
+	for {
+		left := time.Until(deadline)
+		if left <= 0 {
+			left = time.Millisecond
+		}
+		var got bool
+		if d, got = x.cgRecv(left); !got {
+			return d, "", nil, nil, false
+		}
+		hc := hcFor(d)
+		if hc == nil {
+			return d, "", nil, errors.New("no client owns this socket"), true
+		}
+		src, payload, derr = x.decode(hc, d)
+		if derr != nil {
+			return d, "", nil, derr, true
+		}
+		if x.relayedForeign(src, payload) {
+			if time.Now().After(deadline) {
+				return d, "", nil, nil, false
+			}
+			continue
+		}
+		return d, src, payload, nil, true
+	}
+}
+
+// tgRecv / cgRecv: the next datagram of THIS run at a target (upstream) / client socket, within wait (0 = poll).
+func (x *relayRun) tgRecv(wait time.Duration) (dgram, bool) {
+	deadline := time.Now().Add(wait)
+	for {
+		var d dgram
+		if wait == 0 {
+			select {
+			case d = <-x.tg.ch:
+			default:
+				return dgram{}, false
+			}
+		} else {
+			select {
+			case d = <-x.tg.ch:
+			case <-time.After(time.Until(deadline)):
+				return dgram{}, false
+			}
+		}
+		if x.classifyTarget(&d) {
+			return d, true
+		}
+	}
+}
+
+func (x *relayRun) cgRecv(wait time.Duration) (dgram, bool) {
+	deadline := time.Now().Add(wait)
+	for {
+		var d dgram
+		if wait == 0 {
+			select {
+			case d = <-x.cg.ch:
+			default:
+				return dgram{}, false
+			}
+		} else {
+			select {
+			case d = <-x.cg.ch:
+			case <-time.After(time.Until(deadline)):
+				return dgram{}, false
+			}
+		}
+		if x.classifyClient(&d) {
+			return d, true
+		}
+	}
 }
 
 // payload generates and remembers the payload with identity id (so that every observation can be checked byte for byte).
 func (x *relayRun) payload(id int) []byte {
-	b := payloadBytes(id, x.r)
+	b := x.payloadBytes(id, 8+x.r.Intn(24))
 	x.plData[id] = b
 	return b
 }
 
 func (x *relayRun) payloadN(id, n int) []byte {
-	b := binary.BigEndian.AppendUint64(nil, uint64(id))
-	b = append(b, x.r.Bytes(n-8)...)
+	b := x.payloadBytes(id, n-16)
 	x.plData[id] = b
 	return b
 }
@@ -421,6 +602,9 @@ type relayRun struct {
 	twoWay    map[int]bool
 	stopHung  bool
 	rbursts   int
+	nonce     [8]byte
+	foreignN  int
+	lateN     int
 }
 
 func tname(i int) string { return fmt.Sprintf("t%d.c11.test", i) }
@@ -476,6 +660,9 @@ func (x *relayRun) setup() error {
 	x.keyToSid = map[int]int{}
 	x.plData = map[int][]byte{}
 	x.sockRelay = map[int]netip.AddrPort{}
+	if _, err := crand.Read(x.nonce[:]); err != nil {
+		return err
+	}
 	x.nextPl = 1000
 	// targets: same port on 127.0.0.(20+i), so that a datagram sent to another session's resolved
 	// address still lands on a monitored socket
@@ -830,32 +1017,34 @@ func (x *relayRun) cfgLine(shared bool) string {
 // observeAtTargets waits for one datagram at a target / upstream socket and classifies it.
 // Returns (target index it is FOR, relay port, payload id, inner-domain flag).
 func (x *relayRun) nextAtTargets() (t int, from netip.AddrPort, plid int, innerDom bool, ok bool) {
-	select {
-	case d := <-x.tg.ch:
-		if x.viaUpstream() {
-			a, payload, err := x.parseUpstream(d.data, d.from)
-			if err != nil {
-				x.fail("upstream-unparsable", fmt.Sprintf("datagram at the upstream proxy does not parse: %v", err))
-				return -1, d.from, -1, false, true
-			}
-			t = -1
-			for i := range x.taddrs {
-				if a.port == x.tport && (a.ip == x.taddrs[i] || a.name == tname(i)) {
-					t = i
-				}
-			}
-			if !x.intact(payload) {
-				x.fail("payload-altered", fmt.Sprintf("datagram at the upstream proxy carries bytes no client sent (id %d, %d bytes)", payloadID(payload), len(payload)))
-			}
-			return t, d.from, payloadID(payload), !a.ip.IsValid(), true
-		}
-		if !x.intact(d.data) {
-			x.fail("payload-altered", fmt.Sprintf("datagram at target %d carries bytes no client sent (id %d, %d bytes)", d.sock, payloadID(d.data), len(d.data)))
-		}
-		return d.sock, d.from, payloadID(d.data), false, true
-	case <-time.After(waitDatagram):
+	d, got := x.tgRecv(waitDatagram)
+	if !got {
 		return 0, netip.AddrPort{}, 0, false, false
 	}
+	if x.viaUpstream() && d.sock == len(x.taddrs) {
+		if d.perr != nil {
+			x.fail("upstream-unparsable", fmt.Sprintf("datagram from a relay session at the upstream proxy does not parse: %v", d.perr))
+			return -1, d.from, -1, false, true
+		}
+		a, payload := d.inner, d.payload
+		t = -1
+		for i := range x.taddrs {
+			if a.port == x.tport && (a.ip == x.taddrs[i] || a.name == tname(i)) {
+				t = i
+			}
+		}
+		if !x.intact(payload) {
+			x.fail("payload-altered", fmt.Sprintf("datagram at the upstream proxy carries bytes no client sent (id %d, %d bytes)", payloadID(payload), len(payload)))
+		}
+		return t, d.from, payloadID(payload), !a.ip.IsValid(), true
+	}
+	if x.viaUpstream() {
+		x.fail("bypassed-upstream", fmt.Sprintf("datagram (payload %d) of this run arrived directly at target %d although the client protocol goes through the upstream proxy", payloadID(d.data), d.sock))
+	}
+	if !x.intact(d.data) {
+		x.fail("payload-altered", fmt.Sprintf("datagram at target %d carries bytes no client sent (id %d, %d bytes)", d.sock, payloadID(d.data), len(d.data)))
+	}
+	return d.sock, d.from, payloadID(d.data), false, true
 }
 
 func (x *relayRun) opSend(o RelayOp) {
@@ -964,12 +1153,8 @@ func (x *relayRun) opReply(o RelayOp) {
 		x.fail("harness-write", err.Error())
 	}
 	x.script = append(x.script, fmt.Sprintf("down %d %d %d %d", sid, ipNat(src.Addr()), src.Port(), pl))
-	select {
-	case d := <-x.cg.ch:
-		// which client owns the socket it arrived at?
-		hc := x.clients[owner]
+	if d, s, payload, err, got := x.cgRecvDecoded(x.ownerOf, waitDatagram); got {
 		x.checkReplyFrom(d)
-		s, payload, err := x.decode(hc, d)
 		if err != nil {
 			x.impl = append(x.impl, "undecodable")
 			x.fail("reply-undecodable", fmt.Sprintf("reply at client socket %d does not decode with the owner's session: %v", d.sock, err))
@@ -996,7 +1181,7 @@ func (x *relayRun) opReply(o RelayOp) {
 		}
 		x.impl = append(x.impl, fmt.Sprintf("reply %d %s %d", d.sock, srcField, payloadID(payload)))
 		x.twoWay[sid] = true
-	case <-time.After(waitDatagram):
+	} else {
 		x.impl = append(x.impl, "lost")
 		x.fail("reply-lost", fmt.Sprintf("reply %d from %s to session %d did not arrive within %s", pl, src, sid, waitDatagram))
 	}
@@ -1098,7 +1283,6 @@ func (x *relayRun) opReplyBurst(o RelayOp) {
 		}
 	}
 	var got []string
-	hc := x.clients[owner]
 	want := src.String()
 	if x.c.Server == "direct" {
 		want = "-"
@@ -1108,17 +1292,11 @@ func (x *relayRun) opReplyBurst(o RelayOp) {
 		if len(got) == 0 {
 			wait = waitDatagram
 		}
-		var d dgram
-		select {
-		case d = <-x.cg.ch:
-		case <-time.After(wait):
-			wait = 0
-		}
-		if wait == 0 {
+		d, s, payload, err, have := x.cgRecvDecoded(x.ownerOf, wait)
+		if !have {
 			break
 		}
 		x.checkReplyFrom(d)
-		s, payload, err := x.decode(hc, d)
 		if err != nil {
 			x.fail("reply-undecodable", fmt.Sprintf("reply burst: datagram at client socket %d does not decode with the owner's session: %v", d.sock, err))
 			got = append(got, "undecodable")
@@ -1233,6 +1411,31 @@ func (x *relayRun) opGarbage(o RelayOp) {
 	}
 }
 
+// foreignSessionSince: did the relay start a session for a client address that is none of this run's sockets?
+func (x *relayRun) foreignSessionSince(mark int) bool {
+	mine := map[string]bool{}
+	x.cg.mu.Lock()
+	for _, c := range x.cg.socks {
+		ap := c.LocalAddr().(*net.UDPAddr).AddrPort()
+		mine[netip.AddrPortFrom(ap.Addr().Unmap(), ap.Port()).String()] = true
+	}
+	x.cg.mu.Unlock()
+	all := x.relay.logs.All()
+	for _, e := range all[min(mark, len(all)):] {
+		if !strings.HasSuffix(e.Message, "relay started") {
+			continue
+		}
+		ca := fmt.Sprint(e.ContextMap()["clientAddress"])
+		if ap, err := netip.ParseAddrPort(ca); err == nil {
+			ca = netip.AddrPortFrom(ap.Addr().Unmap(), ap.Port()).String()
+		}
+		if !mine[ca] {
+			return true
+		}
+	}
+	return false
+}
+
 func countFDs() int {
 	ents, err := os.ReadDir("/proc/self/fd")
 	if err != nil {
@@ -1251,6 +1454,7 @@ func (x *relayRun) opBurst(o RelayOp) {
 	x.opSend(RelayOp{Op: "send", C: o.C, T: 0})
 	time.Sleep(20 * time.Millisecond)
 	g0, f0 := runtime.NumGoroutine(), countFDs()
+	logMark := x.relay.logs.Len()
 	hc := x.clients[o.C]
 	fresh, err := x.newClientSocket(o.C) // +1 fd, +1 goroutine of the harness itself
 	if err != nil {
@@ -1282,6 +1486,10 @@ func (x *relayRun) opBurst(o RelayOp) {
 			return
 		}
 		if time.Now().After(deadline) {
+			if x.foreignSessionSince(logMark) {
+				x.skip("foreign") // another process's datagram opened a session in this relay meanwhile: not attributable
+				return
+			}
 			x.fail("garbage-created-goroutines-or-fds", fmt.Sprintf("after 40 garbage datagrams: goroutines %d -> %d, fds %d -> %d", g0, g1, f0, f1))
 			return
 		}
@@ -1404,13 +1612,8 @@ func (x *relayRun) opStall(o RelayOp) {
 		if len(got) == 0 {
 			wait = waitDatagram
 		}
-		var d dgram
-		select {
-		case d = <-x.tg.ch:
-		case <-time.After(wait):
-			wait = 0
-		}
-		if wait == 0 {
+		d, have := x.tgRecv(wait)
+		if !have {
 			break
 		}
 		pl := payloadID(d.data)
@@ -1480,14 +1683,23 @@ func (x *relayRun) opMove(o RelayOp) {
 func (x *relayRun) drainUnexpected() {
 	time.Sleep(50 * time.Millisecond)
 	for {
-		select {
-		case d := <-x.tg.ch:
-			x.fail("unexpected-datagram-at-target", fmt.Sprintf("unsolicited datagram (payload %d) at target socket %d from %s", payloadID(d.data), d.sock, d.from))
-		case d := <-x.cg.ch:
-			x.fail("unexpected-datagram-at-client", fmt.Sprintf("unsolicited datagram (%d bytes) at client socket %d", len(d.data), d.sock))
-		default:
-			return
+		d, ok := x.tgRecv(0)
+		if !ok {
+			break
 		}
+		x.fail("unexpected-datagram-at-target", fmt.Sprintf("unsolicited datagram of this run (payload %d) at target socket %d from %s", payloadID(d.payload), d.sock, d.from))
+	}
+	for {
+		d, ok := x.cgRecv(0)
+		if !ok {
+			break
+		}
+		if ci, known := x.sockOwner[d.sock]; known {
+			if src, payload, err := x.decode(x.clients[ci], d); err == nil && x.relayedForeign(src, payload) {
+				continue
+			}
+		}
+		x.fail("unexpected-datagram-at-client", fmt.Sprintf("unsolicited datagram (%d bytes) from this run's relay at client socket %d", len(d.data), d.sock))
 	}
 }
 
@@ -1558,11 +1770,18 @@ loop:
 	for {
 		select {
 		case d := <-x.tg.ch:
+			if !x.classifyTarget(&d) {
+				continue // not a datagram of this run
+			}
 			quiet.Reset(400 * time.Millisecond)
 			var t, pl int
 			var echo, pbytes []byte
+			if x.viaUpstream() && d.sock != up {
+				x.fail("bypassed-upstream", fmt.Sprintf("under concurrency: datagram (payload %d) of this run arrived directly at target %d", payloadID(d.data), d.sock))
+				continue
+			}
 			if x.viaUpstream() {
-				a, payload, err := x.parseUpstream(d.data, d.from)
+				a, payload, err := d.inner, d.payload, d.perr
 				pbytes = payload
 				if err != nil {
 					x.fail("upstream-unparsable", err.Error())
@@ -1604,16 +1823,26 @@ loop:
 				x.tg.get(t).WriteToUDPAddrPort(echo, d.from)
 			}
 		case d := <-x.cg.ch:
+			if !x.classifyClient(&d) {
+				continue
+			}
 			quiet.Reset(400 * time.Millisecond)
 			// the socket's owner
 			owner, known := x.sockOwner[d.sock]
-			if !known || x.clients[owner].sock != d.sock {
-				// in the flood every client sends from its current socket only
-				x.fail("reply-to-wrong-address", fmt.Sprintf("under concurrency: reply at socket %d, which is not the address any flooding client sends from", d.sock))
+			if !known {
+				x.fail("reply-to-wrong-address", fmt.Sprintf("under concurrency: reply at socket %d, which belongs to no client", d.sock))
 				continue
 			}
 			x.checkReplyFrom(d)
 			s, payload, err := x.decode(x.clients[owner], d)
+			if err == nil && x.relayedForeign(s, payload) {
+				continue
+			}
+			if x.clients[owner].sock != d.sock {
+				// in the flood every client sends from its current socket only
+				x.fail("reply-to-wrong-address", fmt.Sprintf("under concurrency: reply at socket %d, which is not the address any flooding client sends from", d.sock))
+				continue
+			}
 			if err != nil {
 				x.fail("reply-undecodable", fmt.Sprintf("under concurrency: reply at client %d does not decode: %v", owner, err))
 				continue
@@ -1643,6 +1872,7 @@ loop:
 }
 
 type relayResult struct {
+	foreign, late int
 	script, impl []string
 	fails        []common.OracleFailure
 	sessions     int
@@ -1658,6 +1888,10 @@ func runRelayCase(c RelayCase, dns *scriptDNS, shared bool) (res relayResult, er
 	defer func() {
 		x.teardown()
 		res.script, res.impl, res.fails = x.script, x.impl, x.fails
+		res.foreign, res.late = x.foreignN, x.lateN
+		pastNonceMu.Lock()
+		pastNonces[x.nonce] = true
+		pastNonceMu.Unlock()
 		res.sessions, res.twoWay = len(x.sidPort), len(x.twoWay)
 	}()
 	if err = x.setup(); err != nil {
@@ -1702,6 +1936,12 @@ func evalRelay(cases []RelayCase, dns *scriptDNS, shared bool, o *common.Options
 			return fmt.Errorf("udprelay %s>%s/%s: %w", c.Server, c.Client, c.Batch, err)
 		}
 		rep.Case(relaySig(c), res.twoWay >= 2)
+		if res.foreign > 0 {
+			rep.Distribution["udprelay:foreign-traffic"] += res.foreign
+		}
+		if res.late > 0 {
+			rep.Distribution["udprelay:late-previous-case"] += res.late
+		}
 		rep.Count(fmt.Sprintf("udprelay:%s>%s/%s%s", c.Server, c.Client, c.Batch, map[string]string{"": "", "wild4": "+wild4", "dual": "+dual"}[c.Family]))
 		if c.Flood > 0 && c.Server != "direct" {
 			rep.Count("udprelay:flood-runs")
